@@ -652,3 +652,81 @@ Definition res_clause (X : ext) (cap : bool) (m : pmsg) (e : hres) (rt : option 
   if negb (res_fields_ok m e) then 1
   else if negb (content_ok X cap m e) then 2
   else if negb (opt_eq hres_eq rt (Some e)) then 3 else 0.
+
+(* ------------------------------------------------- audit round additions *)
+
+(* What the JSON round trip makes of ANY entry: every Go string goes through
+   [sanitize]; the post-data text and the base64 content text are kept. *)
+Definition san_post (X : ext) (p : postdata) : postdata :=
+  mkPost (sanitize X (pd_mime p)) (map (san_param X) (pd_params p)) (pd_text p).
+Definition san_req (X : ext) (e : hreq) : hreq :=
+  mkHreq (sanitize X (r_method e)) (sanitize X (r_url e)) (sanitize X (r_proto e))
+         (map (san_cookie X) (r_cookies e)) (map (san_kv X) (r_headers e)) (map (san_kv X) (r_query e))
+         (match r_post e with Some p => Some (san_post X p) | None => None end) (r_bodysize e).
+Definition san_content (X : ext) (c : content) : content :=
+  mkContent (ct_size c) (sanitize X (ct_mime c)) (ct_text c) (ct_enc c).
+Definition san_res (X : ext) (e : hres) : hres :=
+  mkHres (e_status e) (sanitize X (e_proto e)) (map (san_cookie X) (e_cookies e))
+         (map (san_kv X) (e_headers e)) (san_content X (e_content e)) (sanitize X (e_redirect e))
+         (e_bodysize e).
+
+(* "every Go string of the entry is valid UTF-8", decidably *)
+Definition kv_ok_b (X : ext) (p : kv) : bool := (utf8_ok X (fst p) && utf8_ok X (snd p))%bool.
+Definition param_ok_b (X : ext) (p : param) : bool :=
+  (utf8_ok X (p_name p) && utf8_ok X (p_value p) && utf8_ok X (p_file p) && utf8_ok X (p_ctype p))%bool.
+Definition cookie_ok_b (X : ext) (c : cookie) : bool :=
+  (utf8_ok X (c_name c) && utf8_ok X (c_value c) && utf8_ok X (c_path c) && utf8_ok X (c_domain c)
+   && utf8_ok X (c_expires c))%bool.
+Definition req_strings_b (X : ext) (e : hreq) : bool :=
+  (utf8_ok X (r_method e) && utf8_ok X (r_url e) && utf8_ok X (r_proto e)
+   && forallb (cookie_ok_b X) (r_cookies e) && forallb (kv_ok_b X) (r_headers e)
+   && forallb (kv_ok_b X) (r_query e)
+   && match r_post e with
+      | Some p => (utf8_ok X (pd_mime p) && forallb (param_ok_b X) (pd_params p))%bool
+      | None => true
+      end)%bool.
+Definition res_strings_b (X : ext) (e : hres) : bool :=
+  (utf8_ok X (e_proto e) && utf8_ok X (e_redirect e) && forallb (cookie_ok_b X) (e_cookies e)
+   && forallb (kv_ok_b X) (e_headers e) && utf8_ok X (ct_mime (e_content e)))%bool.
+
+(* the two response defects the guarded theorem excludes, decidably: a
+   content coding that is gzip / deflate up to case but not spelled so, and a
+   deflate body on which the raw reader and the HTTP reader differ *)
+Definition coding_case_b (ce : bytes) : bool :=
+  match spec_coding ce with
+  | CGzip => negb (beq ce (B "gzip"))
+  | CDeflate => negb (beq ce (B "deflate"))
+  | CIdent => false
+  end.
+Definition zlib_b (X : ext) (m : pmsg) : bool :=
+  match spec_coding (hget k_ce (s_hdrs m)) with
+  | CDeflate => negb (opt_eq beq (inflate_raw X (s_body m)) (inflate_http X (s_body m)))
+  | _ => false
+  end.
+
+(* what the code itself decodes (for the exact characterisation of a missing response) *)
+Definition code_decode (X : ext) (m : pmsg) : option bytes :=
+  if (Z.eqb (s_status m) 204 || Z.eqb (s_status m) 206 || is_nil (s_body m))%bool then Some (s_body m)
+  else if beq (hget k_ce (s_hdrs m)) (B "gzip") then gunzip X (s_body m)
+  else if beq (hget k_ce (s_hdrs m)) (B "deflate") then inflate_raw X (s_body m)
+  else Some (s_body m).
+
+(* oracles of the direct codec cases *)
+Definition pd_rt_ok (e : postdata) (rt : option postdata) : bool := opt_eq post_eq rt (Some e).
+Definition ct_rt_ok (e : content) (rt : option content) : bool := opt_eq content_eq rt (Some e).
+
+(* the relation the model-versus-implementation comparison decides *)
+Definition post_equiv (p q : postdata) : Prop :=
+  pd_mime p = pd_mime q /\ Permutation (pd_params p) (pd_params q) /\ pd_text p = pd_text q.
+Definition hreq_equiv (a b : hreq) : Prop :=
+  r_method a = r_method b /\ r_url a = r_url b /\ r_proto a = r_proto b /\ r_cookies a = r_cookies b /\
+  Permutation (r_headers a) (r_headers b) /\ Permutation (r_query a) (r_query b) /\
+  match r_post a, r_post b with
+  | Some p, Some q => post_equiv p q
+  | None, None => True
+  | _, _ => False
+  end /\ r_bodysize a = r_bodysize b.
+Definition hres_equiv (a b : hres) : Prop :=
+  e_status a = e_status b /\ e_proto a = e_proto b /\ e_cookies a = e_cookies b /\
+  Permutation (e_headers a) (e_headers b) /\ e_content a = e_content b /\
+  e_redirect a = e_redirect b /\ e_bodysize a = e_bodysize b.
